@@ -66,12 +66,12 @@ class Run:
 
     # ------------------------------------------------------------------ TLC
     def tlc(self, module, cfg, dump=False, workers=16, timeout=600, env=None,
-            expect_violation=False, simulate=None, extra=(), name=None, coverage=False):
+            expect_violation=False, simulate=None, extra=(), name=None, coverage=False, heap=None):
         """Run TLC on spec/<module>.tla with spec/cfg/<cfg>.  Returns TlcResult."""
         name = name or cfg.replace('.cfg', '')
         meta = os.path.join(self.work, 'meta-' + name)
         res = TlcResult()
-        cmd = ['timeout', str(timeout), 'java', '-XX:+UseParallelGC', '-Xmx' + os.environ.get('VERIF_TLC_HEAP', '6g'), '-Xss32m', '-Dfile.encoding=UTF-8', '-cp', TLC_CP,
+        cmd = ['timeout', str(timeout), 'java', '-XX:+UseParallelGC', '-Xmx' + (heap or os.environ.get('VERIF_TLC_HEAP', '6g')), '-Xss32m', '-Dfile.encoding=UTF-8', '-cp', TLC_CP,
                'tlc2.TLC', '-workers', str(workers), '-metadir', meta, '-noGenerateSpecTE',
                '-config', os.path.join('cfg', cfg)]
         if coverage:
